@@ -54,10 +54,12 @@ def pred(spec):
     raise ValueError(spec)
 
 
-CAUSE = {"none": 0, "socketClosed": 1, "readFailed": 2, "protocol": 3, "base": 0, "pingFailed": 5, "requiresEncryption": 6}
+CAUSE = {"none": 0, "socketClosed": 1, "readFailed": 2, "protocol": 3, "base": 0, "pingFailed": 5, "requiresEncryption": 6, "recorded": 7}
 
 
 def err_name(e):
+    if getattr(e, "verif_recorded", False):
+        return "recorded"   # the cause put on record before the close (itself a TimeoutAPIError, as disconnect() records it)
     if isinstance(e, core.TimeoutAPIError):
         return "timeout"
     if isinstance(e, core.ConnectionNotEstablishedAPIError):
@@ -127,6 +129,8 @@ class Bench:
         f = self.conn._fatal_exception
         if f is None:
             return 0
+        if getattr(f, "verif_recorded", False):
+            return CAUSE["recorded"]
         n = fh.err_class(f)
         if n.startswith("raw:"):
             return CAUSE["readFailed"]
@@ -154,7 +158,7 @@ def run_scenario(defs, ops, watch):
         waiters = len(conn._read_exception_futures)
         # "it fails with a timeout error exactly at its timeout": the instant a call turns into a timeout error is its start
         # plus its own timeout (virtual time only moves in `time` ops, after the ready queue has been drained)
-        if closed() and getattr(b, "pending_at_close", None) is None:
+        if dead() and getattr(b, "pending_at_close", None) is None:
             # (a call whose own deadline has already been reached is about to end as a timeout: not counted)
             b.pending_at_close = {i_ for i_, tk_ in b.tasks.items() if not tk_.done() and loop.time() < b.t0[i_] + b.defs[i_][0] * TICK - 1e-9}
         for i_, tk_ in b.tasks.items():
@@ -176,6 +180,12 @@ def run_scenario(defs, ops, watch):
         if (timers > pending or waiters > pending) and not any(k == "leak" for k, _ in bad):
             bad.append(("leak", f"after {op!r}: {pending} call(s) still waiting but request-timers={timers} waiters={waiters}: "
                                 f"a call that ended (result / timeout / cancellation / connection loss) left something behind"))
+
+    def dead():
+        """closed, or the transport has reported the loss of the connection (connection_lost delivered): the same moment
+        for a caller - 'the connection closes' - whatever else had been put on record before"""
+        tr_ = net.tr
+        return closed() or (tr_ is not None and getattr(tr_, "lost_called", False))
 
     def closed():
         return conn.connection_state is ac.CONNECTION_STATE_CLOSED
@@ -260,6 +270,15 @@ def run_scenario(defs, ops, watch):
             if was_closed:
                 continue
             kind = op[1]
+            if kind.endswith("+rec"):
+                # a cause is already on record WITHOUT the connection having been closed - what disconnect() does when it
+                # gives up waiting for the connect to finish (TimeoutAPIError, then it goes on) - and then the connection
+                # is lost: the waiting calls end at that moment like at any other close
+                kind = kind[:-4]
+                if conn._fatal_exception is None:
+                    rec = core.TimeoutAPIError("Timed out waiting to finish connect before disconnecting")
+                    rec.verif_recorded = True
+                    conn._set_fatal_exception_if_unset(rec)
             try:
                 if kind == "force":
                     conn.force_disconnect()
@@ -335,8 +354,8 @@ def run_scenario(defs, ops, watch):
             bad.append(("leak", f"all calls ended but handlers={leftover} waiters={len(conn._read_exception_futures)} "
                                 f"request-timers={timers} remain"))
     else:
-        if closed():
-            bad.append(("blocked-on-closed-connection", "the connection is closed and every ready handle has run, yet call(s) "
+        if dead():
+            bad.append(("blocked-on-closed-connection", "the connection is closed / lost and every ready handle has run, yet call(s) "
                         f"{[i for i, tk in b.tasks.items() if not tk.done()]} are still waiting: a call fails with the connection's error when "
                         "the connection closes, however it closes"))
         # some calls are still waiting: each of them owns exactly one timeout timer and one waiter, the ended ones none
@@ -387,7 +406,7 @@ def gen(ck: Check):
                 ops.append(("time", rng.choice([1.0, 1.0, 0.5])))
             elif r < (0.97 if style == "closes" else 0.91):
                 if len(pending_calls) <= ncalls // 2 and not any(o[0] == "close" for o in ops):
-                    ops.append(("close", rng.choice(["force", "eof", "garbage", "reset", "peer"])))
+                    ops.append(("close", rng.choice(["force", "eof", "garbage", "reset", "peer", "eof+rec", "reset+rec", "garbage+rec"])))
             elif r < 0.985:
                 ops.append(("write", rng.choice([0, 1])) if rng.random() < 0.5 else ("oneshot", rng.choice([21, 25, 26])))
             else:
